@@ -366,9 +366,13 @@ def graph_walkers(repo, res, rule="GW"):
                 else:
                     it_ok = it[0] == "param"
                 # only `visited` may prune: enclosing ifs test visited; preceding early-continues test visited or a missing follow set
-                cond_ok = all("visited" in cond_text(repo, fn, g[0]["cond"]) for g in conds)
+                # the visited sets are the `&mut` set parameters of the walk, the follow map its map parameter (by type, not by name)
+                vis = [prm["name"] for prm in fn.params if prm.get("name") and "mut" in (prm.get("ty") or "") and re.search(r"RoaringBitmap|Set", prm.get("ty") or "")]
+                maps = [prm["name"] for prm in fn.params if prm.get("name") and re.search(r"Map", prm.get("ty") or "")]
+                tests_vis = lambda t: any(re.search(r"\b%s\b" % re.escape(v), t) for v in vis)
+                cond_ok = all(tests_vis(cond_text(repo, fn, g[0]["cond"])) for g in conds)
                 pg = [x for x in A.preceding_guards(c, pm) if A.before(lp, x[2])]
-                pg_ok = all(("visited" in cond_text(repo, fn, x[1])) if x[0] == "if" else ("followpos.get" in cond_text(repo, fn, x[1]["init"]).replace(" ", "")) for x in pg)
+                pg_ok = all(tests_vis(cond_text(repo, fn, x[1])) if x[0] == "if" else any((m + ".get") in cond_text(repo, fn, x[1]["init"]).replace(" ", "") for m in maps) for x in pg)
                 # the successor handed on is the loop's own target / follow set
                 a0 = A.resolve(c["args"][0], envs.get(id(c)))
                 succ_ok = any(r[0] in ("param",) for r in A.roots(a0)) and ("elem" in str(a0))
@@ -513,7 +517,14 @@ def cycseed(repo, res, rule="CYCSEED"):
         recs = list(P.find_calls(f2.body, names={f2.name}))
         if len(errs) == 1 and len(recs) == 1:
             gs = [g for g in A.guards_of(errs[0], pm2) if g[0]["k"] == "If"]
-            onpath = bool(gs) and "path" in cond_text(repo, f2, gs[0][0]["cond"]) and "any" in cond_text(repo, f2, gs[0][0]["cond"])
+            # the current path is the `&mut Vec<(name, span)>` parameter
+            pname = next((prm["name"] for prm in f2.params if "Vec<(" in "".join((prm.get("ty") or "").split())), "path")
+            ctext = cond_text(repo, f2, gs[0][0]["cond"]) if gs else ""
+            if gs and pname not in ctext:
+                # the test may be a local computed from the path just before (`let on_path = path.iter().any(..)`)
+                envs2 = A.collect_envs(f2)
+                ctext = A.show(A.resolve(gs[0][0]["cond"], envs2.get(id(gs[0][0]["cond"])) or envs2.get(id(gs[0][0]))))
+            onpath = bool(gs) and pname in ctext and "any" in ctext
             pg = A.preceding_guards(recs[0], pm2)
             vname = next((prm["name"] for prm in f2.params if "UstrSet" in (prm.get("ty") or "")), "visited")
             skip = [x for x in pg if x[0] == "if" and (vname + ".contains") in cond_text(repo, f2, x[1]).replace(" ", "")]
